@@ -3,15 +3,18 @@ package main
 import (
 	"crypto/sha256"
 	"encoding/hex"
+	"fmt"
 	"go/ast"
 	"go/token"
+	"os"
 )
 
 // Functions that contain a loop are translated only up to the loop: the loop
 // itself is replaced by a section variable that stands for the hand model of
 // that part (Proofs/BigIntEqHash.v instantiates it with the model's own
-// code).  The replaced source text is FINGERPRINTED: if it changes, bigintgen
-// stops with an error instead of silently keeping the old model.
+// code).  The replaced source text is fingerprinted; since the second pass
+// (loops mode) translates these loops and Proofs/BigIntEqLoops*.v prove them
+// equal to the same models, a changed fingerprint is only reported as a note.
 
 // loopModel: a `for` statement replaced by  <assign> = <fn>(<args>).
 type loopModel struct {
@@ -70,8 +73,11 @@ func (t *tr) loopStmt(s ast.Stmt) bool {
 		return false
 	}
 	if fp := fingerprint(fs); fp != lm.sha {
-		t.fail("the loop changed (fingerprint %s, recorded %s): its model %q in Proofs/BigIntEq{Hash,Recv}.v "+
-			"must be re-validated against the new code and the fingerprint in tools/bigintgen/loops.go updated", fp, lm.sha, lm.fn)
+		// Not an error any more: the loop itself is translated by the second pass
+		// (Gen/BigIntLoops.v) and proved equal to the same model there
+		// (Proofs/BigIntEqLoops*.v, which the Properties files require), so an edit of
+		// the loop is judged by that proof, not by its text.
+		fmt.Fprintf(os.Stderr, "bigintgen: note: %s.%s: the loop text changed (fingerprint %s, recorded %s); it is checked by the loops pass\n", t.p.name, t.key, fp, lm.sha)
 	}
 	e := lm.fn
 	for _, a := range lm.args {
@@ -171,9 +177,7 @@ func (t *tr) applyGuardCut(gc guardCut, body []ast.Stmt) (kept []ast.Stmt, tail 
 		t.fail("the part modelled by %q does not end in a return", gc.fn)
 	}
 	if fp := fingerprint(skipped...); fp != gc.sha {
-		t.fail("the part after the guards changed (fingerprint %s, recorded %s): its model %q in "+
-			"Proofs/BigIntEqHash.v must be re-validated against the new code and the fingerprint in "+
-			"tools/bigintgen/loops.go updated", fp, gc.sha, gc.fn)
+		fmt.Fprintf(os.Stderr, "bigintgen: note: %s.%s: the part after the guards changed (fingerprint %s, recorded %s); it is checked by the loops pass\n", t.p.name, t.key, fp, gc.sha)
 	}
 	tail = func() string {
 		e := gc.fn
